@@ -14,6 +14,7 @@ def hexOrDash (b : Bytes) : String := if b.isEmpty then "-" else toHex b
 def verrStr : Model.VErr → String
   | .exit1 _ => "EXIT1"
   | .abnormal k => s!"ABNORMAL:{k}"
+  | .exc w => s!"UNCAUGHT {w}"
 
 def specHashFns : Spec.HashFns := { sha256 := Crypto.sha256, ripemd160 := Crypto.ripemd160 }
 
